@@ -17,7 +17,7 @@ import numpy as np
 
 from .. import fem
 from .. import universe as U
-from ..core import guarded
+from ..fem import guarded
 from ..project import fx
 from . import c01_law
 
@@ -384,7 +384,7 @@ def exec_normal(rec):
         tv = np.asarray(mesh.t)
         nvc = {'quad': 4, 'tri': 3, 'hex': 8, 'tet': 4}[kind]
         planar = int(rec['planar'])
-        out = {'a': 'Normal', 'err': '', 'dim': dim, 'planar': planar, 'side': int(rec['side']), 'fac': []}
+        out = {'a': 'Normal', 'err': '', 'dim': dim, 'planar': planar, 'side': int(rec['side']), 'interior': int(rec['interior']), 'fac': []}
         for k, f in enumerate(facets):
             fv = np.asarray(mesh.facets)[:, f]
             pts = np.rint(P[:, fv]).astype(int)                 # integer vertex coordinates of the facet
